@@ -217,7 +217,10 @@ def _ints(a):
 
 # ------------------------------------------------------------------ the route from a list of Miller planes (GMF) and a crystal
 GMF_GROUPS = [(1, ""), (2, ""), (3, "b"), (6, "b"), (10, "b"), (16, ""), (25, ""), (47, ""), (75, ""), (81, ""), (89, ""), (123, ""),
-              (195, ""), (200, ""), (207, ""), (221, "")]
+              (195, ""), (200, ""), (207, ""), (221, ""),
+              # centred lattices, with and without glide / screw translations between the centring translates in the table order
+              (40, ""), (41, "-cba"), (43, ""), (70, "2"), (70, "1"), (63, ""), (64, "cab"), (9, "b2"), (15, "-b1"), (15, "b3"),
+              (203, "2"), (210, ""), (227, "2"), (227, "1"), (228, "2"), (225, ""), (229, ""), (216, "")]
 
 
 def _rot_of(code):
